@@ -28,7 +28,7 @@ ASSUMPTIONS = [
     "initializers passed as boundary inputs may appear both as input and as initializer of the extract (accepted)",
     "string-typed boundary values are not used as inputs of the execution oracle",
 ]
-BUDGET = {"quick": (16, 600), "thorough": (16, 12000)}
+BUDGET = {"quick": (16, 1800), "thorough": (16, 12000)}
 
 
 def strategy(tier, phase):
